@@ -1,17 +1,30 @@
-(* DashTreeProofs.v — dashboards and folders as a keyed store with a tree (model: SigM.DashTree).
-   The history-guard theorem dt_hist_ok_detects lives in DashTreeFreshProofs.v. *)
+(* DashTreeProofs.v — dashboards and folders as a keyed store with a tree (model: SigM.DashTree). *)
 From SigM Require Import Base DashTree.
-From SigP Require Import DashTreeFreshProofs.
 From Coq Require Import Lia.
 Open Scope N_scope.
 
 (* ---- boolean equalities ---- *)
+
+Lemma bytes_eqb_eq : forall a b : list N, bytes_eqb a b = true -> a = b.
+Proof.
+  unfold bytes_eqb. induction a as [|x a IH]; destruct b as [|y b]; simpl; try discriminate; auto.
+  intro H. apply andb_prop in H as [H1 H2]. apply N.eqb_eq in H1. subst. f_equal. auto.
+Qed.
+
+Lemma bytes_eqb_refl : forall a : list N, bytes_eqb a a = true.
+Proof. unfold bytes_eqb. induction a; simpl; auto. rewrite N.eqb_refl. auto. Qed.
 
 Lemma names_eqb_eq : forall a b, names_eqb a b = true -> a = b.
 Proof.
   unfold names_eqb. induction a as [|[i n] a IH]; destruct b as [|[j m] b]; simpl; try discriminate; auto.
   intro H. apply andb_prop in H as [H1 H2]. apply andb_prop in H1 as [Hi Hn]. simpl in *.
   apply N.eqb_eq in Hi. apply bytes_eqb_eq in Hn. subst. f_equal. auto.
+Qed.
+
+Lemma names_eqb_refl : forall a, names_eqb a a = true.
+Proof.
+  unfold names_eqb. induction a as [|[i n] a IH]; simpl; auto.
+  rewrite N.eqb_refl, bytes_eqb_refl. auto.
 Qed.
 
 Lemma finfo_eqb_eq a b : finfo_eqb a b = true -> a = b.
@@ -22,10 +35,33 @@ Proof.
   subst. reflexivity.
 Qed.
 
-(* ---- the tree is a function of the writes: reads, refreshes and restarts never touch it ---- *)
+Lemma finfo_eqb_refl a : finfo_eqb a a = true.
+Proof. unfold finfo_eqb. rewrite N.eqb_refl, !bytes_eqb_refl, names_eqb_refl. reflexivity. Qed.
 
-Theorem dt_tree_of_writes : forall ops s,
-  d_tree (d_run ops s) = fold_left tree_apply ops (d_tree s).
+Lemma n_get_put {V} k (v : V) k' m :
+  n_get k' (n_put k v m) = if N.eqb k k' then Some v else n_get k' m.
+Proof.
+  induction m as [|[k0 v0] m IH]; simpl.
+  - reflexivity.
+  - destruct (N.eqb k0 k) eqn:E0; simpl.
+    + apply N.eqb_eq in E0. subst k0. destruct (N.eqb k k'); reflexivity.
+    + destruct (N.eqb k0 k') eqn:E1.
+      * apply N.eqb_eq in E1. subst k0. rewrite N.eqb_sym, E0. reflexivity.
+      * exact IH.
+Qed.
+
+(* ---- the tree is a function of the writes: reads, refreshes and restarts never touch it
+        (whatever the freshness test of the refresh is) ---- *)
+
+Lemma d_step_tree same s o : d_tree (fst (d_step_with same s o)) = tree_apply (d_tree s) o.
+Proof.
+  unfold d_step_with. destruct o; cbv zeta; simpl; auto.
+  - destruct (look _ _); reflexivity.
+  - destruct (n_get i _) as [it|]; [destruct (look _ _)|]; reflexivity.
+Qed.
+
+Theorem dt_tree_of_writes same : forall ops s,
+  d_tree (d_run_with same ops s) = fold_left tree_apply ops (d_tree s).
 Proof.
   induction ops as [|o r IH]; simpl; intros; auto.
   rewrite IH, d_step_tree. reflexivity.
@@ -34,61 +70,38 @@ Qed.
 Corollary dt_tree_init ops : d_tree (d_run ops d_init) = tree_of_writes ops.
 Proof. apply dt_tree_of_writes. Qed.
 
-Lemma tree_apply_read o tr : is_read o = true -> tree_apply tr o = tr.
-Proof. destruct o; simpl; try discriminate; auto. Qed.
+(* ---- a read of a dashboard returns the folder info the tree determines: every state ---- *)
 
-Lemma d_run_app a : forall b s, d_run (a ++ b) s = d_run b (d_run a s).
-Proof. induction a; simpl; intros; auto. Qed.
-
-(* ---- path: always current, for every state ---- *)
-
-Lemma get_path_current tr det i fi cur :
-  fst (get_dash tr det i) = Some fi -> info_of tr i = Some cur -> fi_path fi = fi_path cur.
+Lemma get_current tr det i fi cur :
+  fst (get_dash tr det i) = Some fi -> info_of tr i = Some cur -> fi = cur.
 Proof.
-  unfold get_dash, info_of.
+  unfold get_dash, get_dash_with, info_of.
   destruct (n_get i tr) as [it|]; try discriminate.
   destruct (it_folder it); try discriminate.
   destruct (n_get i det) as [st|]; try discriminate.
   destruct (look tr (it_parent it)) as [pf|]; try discriminate.
-  destruct (bytes_eqb (fi_path st) (path_of tr (it_parent it))) eqn:E; simpl; intros H1 H2;
-    inversion H1; inversion H2; subst; simpl; auto.
-  apply bytes_eqb_eq in E. exact E.
+  destruct (finfo_eqb st (info_at tr (it_parent it) pf)) eqn:E; simpl; intros H1 H2;
+    inversion H1; inversion H2; subst; auto.
+  apply finfo_eqb_eq. exact E.
 Qed.
 
-Theorem dt_get_path_current ops i fi cur :
+Theorem dt_read_current ops i fi cur :
   fst (get_dash (d_tree (d_run ops d_init)) (d_det (d_run ops d_init)) i) = Some fi ->
   info_of (tree_of_writes ops) i = Some cur ->
-  fi_path fi = fi_path cur.
-Proof. rewrite <- dt_tree_init. apply get_path_current. Qed.
-
-(* the stored folder id is returned unless the path string changed; the whole info is current
-   exactly under [detects] *)
-Theorem dt_get_info_current_guarded s i fi cur :
-  detects s i = true ->
-  fst (get_dash (d_tree s) (d_det s) i) = Some fi ->
-  info_of (d_tree s) i = Some cur ->
   fi = cur.
+Proof. rewrite <- dt_tree_init. apply get_current. Qed.
+
+(* the details file holds what the read returned (a refresh writes exactly the current info) *)
+Theorem dt_read_stores_what_it_returns tr det i fi :
+  fst (get_dash tr det i) = Some fi -> n_get i (snd (get_dash tr det i)) = Some fi.
 Proof.
-  unfold detects, get_dash. intros Hd Hg Hi. rewrite Hi in Hd.
-  unfold info_of in Hi.
-  destruct (n_get i (d_tree s)) as [it|]; try discriminate.
+  unfold get_dash, get_dash_with.
+  destruct (n_get i tr) as [it|]; try discriminate.
   destruct (it_folder it); try discriminate.
-  destruct (n_get i (d_det s)) as [st|]; try discriminate.
-  destruct (look (d_tree s) (it_parent it)) as [pf|]; try discriminate.
-  inversion Hi; subst cur; clear Hi. simpl in Hd.
-  destruct (bytes_eqb (fi_path st) (path_of (d_tree s) (it_parent it))) eqn:E; simpl in *;
-    inversion Hg; subst; auto.
-  apply finfo_eqb_eq. exact Hd.
-Qed.
-
-Theorem dt_read_current_fresh_names ops i fi cur :
-  hist_ok [] [] ops = true ->
-  fst (get_dash (d_tree (d_run ops d_init)) (d_det (d_run ops d_init)) i) = Some fi ->
-  info_of (tree_of_writes ops) i = Some cur ->
-  fi = cur.
-Proof.
-  intros Hh Hg Hi. rewrite <- dt_tree_init in Hi.
-  eapply dt_get_info_current_guarded; eauto. apply dt_hist_ok_detects. exact Hh.
+  destruct (n_get i det) as [st|] eqn:Ed; try discriminate.
+  destruct (look tr (it_parent it)) as [pf|]; simpl; try congruence.
+  destruct (finfo_eqb st (info_at tr (it_parent it) pf)); simpl; intro H; inversion H; subst; auto.
+  rewrite n_get_put, N.eqb_refl. reflexivity.
 Qed.
 
 (* ---- listing and folder contents: functions of the writes ---- *)
@@ -101,125 +114,26 @@ Theorem dt_contents_current ops f :
   snd (d_step (d_run ops d_init) (Contents f)) = contents_of (tree_of_writes ops) f.
 Proof. simpl. rewrite dt_tree_init. reflexivity. Qed.
 
-(* ---- after a save (or the creation) of a dashboard its whole folder info is current, and reads
-        in between (of any dashboard, listings, restarts) keep it so ---- *)
+(* ---- BEFORE THE FIX (path strings compared): the path was always current, the rest was not ---- *)
 
-Definition cur_stored (s : dstate) (i : N) : Prop :=
-  forall c, info_of (d_tree s) i = Some c -> n_get i (d_det s) = Some c.
+Lemma dt_tree_init_prefix ops : d_tree (d_run_prefix ops d_init) = tree_of_writes ops.
+Proof. apply dt_tree_of_writes. Qed.
 
-Lemma get_dash_fixed tr det i c :
-  info_of tr i = Some c -> n_get i det = Some c -> get_dash tr det i = (Some c, det).
+Theorem dt_prefix_read_path_current ops i fi cur :
+  fst (get_dash_prefix (d_tree (d_run_prefix ops d_init)) (d_det (d_run_prefix ops d_init)) i) = Some fi ->
+  info_of (tree_of_writes ops) i = Some cur ->
+  fi_path fi = fi_path cur.
 Proof.
-  unfold info_of, get_dash. intros Hi Hd.
-  destruct (n_get i tr) as [it|]; try discriminate.
+  rewrite <- dt_tree_init_prefix. generalize (d_run_prefix ops d_init). intro s.
+  unfold get_dash_prefix, get_dash_with, info_of.
+  destruct (n_get i (d_tree s)) as [it|]; try discriminate.
   destruct (it_folder it); try discriminate.
-  rewrite Hd.
-  destruct (look tr (it_parent it)) as [pf|]; try discriminate.
-  inversion Hi; subst c. simpl. rewrite bytes_eqb_refl. reflexivity.
+  destruct (n_get i (d_det s)) as [st|]; try discriminate.
+  destruct (look (d_tree s) (it_parent it)) as [pf|]; try discriminate.
+  destruct (same_path st (info_at (d_tree s) (it_parent it) pf)) eqn:E; simpl; intros H1 H2;
+    inversion H1; inversion H2; subst; auto.
+  apply bytes_eqb_eq in E. exact E.
 Qed.
-
-Lemma get_dash_keeps tr det i j :
-  (forall c, info_of tr i = Some c -> n_get i det = Some c) ->
-  n_get i (snd (get_dash tr det j)) = n_get i det.
-Proof.
-  intro Hc. destruct (N.eq_dec j i) as [->|Hne].
-  - destruct (info_of tr i) as [c|] eqn:Ei.
-    + rewrite (get_dash_fixed _ _ _ _ Ei (Hc _ eq_refl)). reflexivity.
-    + unfold get_dash. unfold info_of in Ei.
-      destruct (n_get i tr) as [it|]; auto.
-      destruct (it_folder it); auto.
-      destruct (n_get i det) eqn:Ed; simpl; auto.
-      destruct (look tr (it_parent it)); try discriminate. simpl. congruence.
-  - unfold get_dash.
-    destruct (n_get j tr) as [it|]; auto.
-    destruct (it_folder it); auto.
-    destruct (n_get j det) as [st|]; auto.
-    destruct (look tr (it_parent it)) as [pf|]; auto.
-    destruct (bytes_eqb (fi_path st) (path_of tr (it_parent it))); simpl; auto.
-    rewrite n_get_put. destruct (N.eqb j i) eqn:E; auto. apply N.eqb_eq in E. contradiction.
-Qed.
-
-Lemma refresh_fold_keeps tr i : forall (l : tree) det,
-  (forall c, info_of tr i = Some c -> n_get i det = Some c) ->
-  n_get i (fold_left (fun d kv => snd (get_dash tr d (fst kv))) l det) = n_get i det.
-Proof.
-  induction l as [|kv l IH]; simpl; intros det Hc; auto.
-  rewrite IH.
-  - apply get_dash_keeps. exact Hc.
-  - intros c Hi. rewrite get_dash_keeps by exact Hc. auto.
-Qed.
-
-Lemma read_keeps_cur_stored s o i :
-  is_read o = true -> cur_stored s i -> cur_stored (fst (d_step s o)) i.
-Proof.
-  unfold cur_stored. intros Hr Hc c.
-  rewrite d_step_tree, (tree_apply_read _ _ Hr). intro Hi.
-  destruct o; simpl in Hr; try discriminate; simpl.
-  - rewrite get_dash_keeps; auto.
-  - unfold refresh_all. rewrite refresh_fold_keeps; auto.
-  - auto.
-  - auto.
-Qed.
-
-Lemma reads_keep_cur_stored i : forall reads s,
-  forallb is_read reads = true -> cur_stored s i -> cur_stored (d_run reads s) i.
-Proof.
-  induction reads as [|o r IH]; simpl; intros s Hr Hc; auto.
-  apply andb_prop in Hr as [H1 H2]. apply IH; auto. apply read_keeps_cur_stored; auto.
-Qed.
-
-Lemma save_makes_cur_stored s i nm p : cur_stored (fst (d_step s (UpdDash i nm p))) i.
-Proof.
-  unfold cur_stored. intro c. rewrite d_step_tree. unfold d_step.
-  set (tr' := tree_apply (d_tree s) (UpdDash i nm p)).
-  unfold info_of.
-  destruct (n_get i tr') as [it|] eqn:Et; try discriminate.
-  destruct (it_folder it); try discriminate.
-  destruct (look tr' (it_parent it)) as [pf|] eqn:El; try discriminate.
-  intro H; inversion H; subst c. simpl. rewrite n_get_put, N.eqb_refl. reflexivity.
-Qed.
-
-Lemma create_makes_cur_stored s i nm p : cur_stored (fst (d_step s (MkDash i nm p))) i.
-Proof.
-  unfold cur_stored. intro c. rewrite d_step_tree. unfold d_step.
-  set (tr' := tree_apply (d_tree s) (MkDash i nm p)).
-  assert (Et : n_get i tr' = Some (mkItem nm false p)).
-  { unfold tr'. simpl. rewrite n_get_put, N.eqb_refl. reflexivity. }
-  unfold info_of. rewrite Et. simpl.
-  destruct (look tr' p) as [pf|] eqn:El; try discriminate.
-  intro H; inversion H; subst c. simpl. rewrite n_get_put, N.eqb_refl. reflexivity.
-Qed.
-
-Lemma cur_stored_get s i fi cur :
-  cur_stored s i ->
-  fst (get_dash (d_tree s) (d_det s) i) = Some fi -> info_of (d_tree s) i = Some cur -> fi = cur.
-Proof.
-  intros Hc Hg Hi. rewrite (get_dash_fixed _ _ _ _ Hi (Hc _ Hi)) in Hg. inversion Hg. reflexivity.
-Qed.
-
-Theorem dt_get_after_save_current ops0 i nm p reads fi cur :
-  forallb is_read reads = true ->
-  let s := d_run (ops0 ++ UpdDash i nm p :: reads) d_init in
-  fst (get_dash (d_tree s) (d_det s) i) = Some fi ->
-  info_of (d_tree s) i = Some cur ->
-  fi = cur.
-Proof.
-  intros Hr s. subst s. rewrite d_run_app. simpl.
-  apply cur_stored_get. apply reads_keep_cur_stored; auto. apply save_makes_cur_stored.
-Qed.
-
-Theorem dt_get_after_create_current ops0 i nm p reads fi cur :
-  forallb is_read reads = true ->
-  let s := d_run (ops0 ++ MkDash i nm p :: reads) d_init in
-  fst (get_dash (d_tree s) (d_det s) i) = Some fi ->
-  info_of (d_tree s) i = Some cur ->
-  fi = cur.
-Proof.
-  intros Hr s. subst s. rewrite d_run_app. simpl.
-  apply cur_stored_get. apply reads_keep_cur_stored; auto. apply create_makes_cur_stored.
-Qed.
-
-(* ---- the full statement fails: the path-string test misses changed chains ---- *)
 
 Definition nm_x : name := [120].      (* "x" *)
 Definition nm_y : name := [121].
@@ -231,10 +145,10 @@ Definition wit_crumbs : list dop :=
   [MkFolder 1 nm_x 0; MkFolder 2 nm_p 1; MkDash 3 nm_D 2;
    UpdFolder 1 (Some nm_y) None; MkFolder 4 nm_x 0; UpdFolder 2 None (Some 4)].
 
-Theorem dt_get_crumbs_refuted :
+Theorem dt_prefix_read_breadcrumbs_refuted :
   exists ops i fi cur,
     forallb (fun o => forallb slash_free (names_of_op o)) ops = true /\
-    fst (get_dash (d_tree (d_run ops d_init)) (d_det (d_run ops d_init)) i) = Some fi /\
+    fst (get_dash_prefix (d_tree (d_run_prefix ops d_init)) (d_det (d_run_prefix ops d_init)) i) = Some fi /\
     info_of (tree_of_writes ops) i = Some cur /\
     fi_path fi = fi_path cur /\ fi_crumbs fi <> fi_crumbs cur.
 Proof.
@@ -249,9 +163,9 @@ Definition wit_name : list dop :=
   [MkFolder 1 [88] 0; MkFolder 2 [97; 47; 98] 1; MkDash 3 nm_D 2;
    UpdFolder 1 (Some [88; 47; 97]) None; UpdFolder 2 (Some [98]) None].
 
-Theorem dt_get_name_refuted :
+Theorem dt_prefix_read_folder_name_refuted :
   exists ops i fi cur,
-    fst (get_dash (d_tree (d_run ops d_init)) (d_det (d_run ops d_init)) i) = Some fi /\
+    fst (get_dash_prefix (d_tree (d_run_prefix ops d_init)) (d_det (d_run_prefix ops d_init)) i) = Some fi /\
     info_of (tree_of_writes ops) i = Some cur /\
     fi_path fi = fi_path cur /\ fi_name fi <> fi_name cur.
 Proof.
@@ -260,16 +174,15 @@ Proof.
   split; [vm_compute; reflexivity|]. vm_compute. discriminate.
 Qed.
 
-(* the history guard is satisfiable by a history that moves and renames ancestors, and the read at
-   its end is a refresh that had something to notice (stored info differs from the current one) *)
-Definition wit_ok : list dop :=
-  [MkFolder 1 [97] 0; MkFolder 2 [98] 1; MkFolder 4 [101] 0; MkDash 3 nm_D 2;
-   UpdFolder 1 (Some [99]) None; UpdFolder 2 None (Some 4)].
-
-Theorem dt_hist_ok_satisfiable :
-  hist_ok [] [] wit_ok = true /\
-  n_get 3 (d_det (d_run wit_ok d_init)) <> info_of (tree_of_writes wit_ok) 3 /\
-  fst (get_dash (d_tree (d_run wit_ok d_init)) (d_det (d_run wit_ok d_init)) 3) = info_of (tree_of_writes wit_ok) 3.
+(* non-vacuity of the full-strength theorem on the two witnesses: the fixed read returns the info of
+   the tree although the stored path string is the current one *)
+Theorem dt_read_current_on_witnesses :
+  fst (get_dash (d_tree (d_run wit_crumbs d_init)) (d_det (d_run wit_crumbs d_init)) 3) = info_of (tree_of_writes wit_crumbs) 3 /\
+  info_of (tree_of_writes wit_crumbs) 3 <> None /\
+  n_get 3 (d_det (d_run wit_crumbs d_init)) <> info_of (tree_of_writes wit_crumbs) 3 /\
+  fst (get_dash (d_tree (d_run wit_name d_init)) (d_det (d_run wit_name d_init)) 3) = info_of (tree_of_writes wit_name) 3 /\
+  n_get 3 (d_det (d_run wit_name d_init)) <> info_of (tree_of_writes wit_name) 3.
 Proof.
-  split; [vm_compute; reflexivity|]. split; [vm_compute; discriminate|]. vm_compute. reflexivity.
+  split; [vm_compute; reflexivity|]. split; [vm_compute; discriminate|].
+  split; [vm_compute; discriminate|]. split; [vm_compute; reflexivity|]. vm_compute. discriminate.
 Qed.
